@@ -793,6 +793,24 @@ Section Final.
     - eapply Permutation_trans; [apply (R_perm K V hash t1 m1 (proj1 Hi1) Hr1)|].
       eapply Permutation_trans; [exact Hp|]. apply Permutation_sym. apply (R_perm K V hash t2 m2 (proj1 Hi2) Hr2).
   Qed.
+
+  (* arguments read from the table itself: in the model arguments are values, so binding k to what
+     get k2 returned is binding k to a copy of it — the map becomes m[k := m(k2)] *)
+  Lemma T_set_from_get (ops : list (op K V)) (k k2 : K) (v : V) :
+    let t := T_run ops in
+    let m := spec_run ops [] in
+    snd (T_step t (TGet K V k2)) = OVal V v ->
+    a_get m k2 = Some v /\
+    t_inv (fst (T_step t (TSet K V k v))) /\
+    R (fst (T_step t (TSet K V k v))) (a_set K V keq m k v) /\
+    snd (T_step t (TSet K V k v)) = OUnit V.
+  Proof.
+    intros t m Hg. destruct (T_refines_map ops (TSelfCopy K V)) as [Hi [Hr _]]. fold t in Hi, Hr. fold m in Hr.
+    destruct (T_get_mem ops k2) as [Hget _]. fold t in Hget. fold m in Hget. rewrite Hg in Hget.
+    split.
+    - destruct (a_get m k2) as [w|]; [injection Hget as ->; reflexivity|discriminate].
+    - destruct (T_step_refines t m (TSet K V k v) Hi Hr) as [Hi' [Hr' Ho]]. auto.
+  Qed.
 End Final.
 
 (* the same history under two hash functions: same outcomes, same len, same bindings *)
